@@ -260,8 +260,8 @@ vars == <<st, act, n>>
 view == <<st, n>>
 
 Init == /\ \E o \in InitStores, f \in InitFiles, cn \in Names, bn \in Names :
-              st = [cfg |-> [name |-> cn, o |-> o], base |-> [name |-> bn, o |-> Builtin], files |-> f, res |-> "ok"]
-        /\ act = [op |-> "init"]
+              /\ st = [cfg |-> [name |-> cn, o |-> o], base |-> [name |-> bn, o |-> Builtin], files |-> f, res |-> "ok"]
+              /\ act = [op |-> "init", cn |-> cn, bn |-> bn]
         /\ n = 0
 
 Do(op) == /\ n < MaxOps
@@ -366,11 +366,12 @@ LoadEffect(s0, op, s1) ==
 (* packaged default and nothing else is ever written; for the six fixed sections and the additional ones every key    *)
 (* that the base configuration defines has the base's value, every other key of these sections and every key of any   *)
 (* other section has the value of the local file / built-in default; nothing else leaks from the base configuration   *)
+AlwaysCopied == {"reporting", "tracks", "teams", "distributions", "defaults", "system"}
 AutoLoadEffect(s0, op, s1) ==
     LET nm == s0.base.name
         f1 == s1.files[nm]
         loc == FromFile(f1)
-        secs == ToSet(CopiedSections) \cup ToSet(op.addl)
+        secs == AlwaysCopied \cup ToSet(op.addl)
         b == s0.base.o
     IN /\ s1.files = [s0.files EXCEPT ![nm] = IF s0.files[nm].present THEN @ ELSE DefaultIni]
        /\ s1.base = s0.base
